@@ -34,6 +34,10 @@ func (ld *Loaded) staticScans(id string) []*FuncResult {
 				has = true
 			}
 		}
+		if has && fd.Kind == "order" {
+			out = append(out, ld.orderScan(fd))
+			continue
+		}
 		if has && fd.Kind == "constructed_by" {
 			out = append(out, ld.constructedByScan(fd))
 			continue
@@ -181,6 +185,104 @@ func (ld *Loaded) constructedByScan(fd *FieldDecl) *FuncResult {
 	o.Detail = fmt.Sprintf("%s objects are allocated only in %s (%d allocation sites)", fd.Type, fd.Arg, n)
 	if len(bad) > 0 {
 		o.Detail += "; FAILS: also allocated in " + strings.Join(bad, ", ")
+	}
+	return &FuncResult{Key: "static:" + o.Name, Obls: []*Obligation{o}}
+}
+
+// callName: how a call site is named in 'order' clauses: the callee's key suffix, an interface
+// method "Iface.Method", or an atomic point name ("store c.running").
+func callNames(in ssa.Instruction) []string {
+	c, ok := in.(ssa.CallInstruction)
+	if !ok {
+		return nil
+	}
+	cc := c.Common()
+	if cc.IsInvoke() {
+		k := strings.TrimPrefix(ifaceMethodKey(cc.Method), "iface:")
+		short := k
+		if i := strings.LastIndex(k, "/"); i >= 0 {
+			short = k[i+1:]
+		}
+		if j := strings.Index(short, "."); j >= 0 {
+			short = short[j+1:]
+		}
+		return []string{k, short}
+	}
+	if sc := cc.StaticCallee(); sc != nil {
+		k := fnKey(sc)
+		names := []string{k, sc.Name()}
+		if sc.Pkg != nil {
+			names = append(names, sc.Pkg.Pkg.Name()+"."+sc.Name())
+		}
+		switch k {
+		case "sync/atomic.StoreInt32":
+			names = append(names, "store "+describe(cc.Args[0]))
+		case "sync/atomic.LoadInt32":
+			names = append(names, "load "+describe(cc.Args[0]))
+		case "sync/atomic.CompareAndSwapInt32":
+			names = append(names, "cas "+describe(cc.Args[0]))
+		}
+		return names
+	}
+	return []string{describe(cc.Value)}
+}
+
+func (ld *Loaded) orderScan(fd *FieldDecl) *FuncResult {
+	o := &Obligation{Name: shortStem(fd.Pkg, fd.Type) + "#order:" + sanitize(fd.Field) + "_before_" + sanitize(fd.Arg), Kind: "frame", Static: true, Props: fd.Props}
+	key := qualifyFuncName(fd.Type, fd.Pkg)
+	fns := ld.fnByKey[key]
+	if len(fns) == 0 {
+		o.Detail = "function " + key + " not found"
+		return &FuncResult{Key: "static:" + o.Name, Obls: []*Obligation{o}}
+	}
+	match := func(in ssa.Instruction, want string) bool {
+		for _, n := range callNames(in) {
+			if n == want || strings.HasSuffix(n, "."+want) || strings.HasSuffix(n, "/"+want) {
+				return true
+			}
+		}
+		return false
+	}
+	var bad []string
+	nB := 0
+	for _, fn := range fns {
+		type site struct {
+			b   *ssa.BasicBlock
+			idx int
+		}
+		var as []site
+		for _, b := range fn.Blocks {
+			for i, in := range b.Instrs {
+				if match(in, fd.Field) {
+					as = append(as, site{b, i})
+				}
+			}
+		}
+		for _, b := range fn.Blocks {
+			for i, in := range b.Instrs {
+				if !match(in, fd.Arg) {
+					continue
+				}
+				nB++
+				ok := false
+				for _, a := range as {
+					if (a.b == b && a.idx < i) || (a.b != b && a.b.Dominates(b)) {
+						ok = true
+					}
+				}
+				if !ok {
+					bad = append(bad, in.String())
+				}
+			}
+		}
+	}
+	o.StaticOK = len(bad) == 0 && nB > 0
+	o.Detail = fmt.Sprintf("in %s every call of %s (%d sites) is dominated by a call of %s", fd.Type, fd.Arg, nB, fd.Field)
+	if len(bad) > 0 {
+		o.Detail += "; FAILS at: " + strings.Join(bad, "; ")
+	}
+	if nB == 0 {
+		o.Detail += "; FAILS: no call of " + fd.Arg + " found"
 	}
 	return &FuncResult{Key: "static:" + o.Name, Obls: []*Obligation{o}}
 }
